@@ -4,7 +4,7 @@
      dense t    : nat -> nat -> A, the textbook matrix with the same three diagonals (the "dense twin")
      in_band i j: i = j \/ i = j + 1 \/ i + 1 = j
      entry m i j: element (i,j) of the flat row-major dense matrix returned by convert *)
-From Coq Require Import List Arith Bool ZArith QArith Qcanon.
+From Coq Require Import List Arith Bool ZArith QArith Qcanon Floats.
 Local Open Scope nat_scope.
 From OV Require Import Base.Panic Base.Arith Model.Vector Model.Matrix Model.Tridiag Inst.QcInst Inst.FloatInst Proofs.Tridiag Proofs.TridiagSolve Proofs.TridiagDet Proofs.TridiagTotal.
 Import ListNotations.
@@ -95,6 +95,8 @@ Check tridiag_scalar_assign : forall (A : Arith), RingLaws A -> forall (t : trid
   (wfT (tmul_assign_s t s) /\ tn (tmul_assign_s t s) = tn t /\
    forall i j, dense (tmul_assign_s t s) i j = (dense t i j * s)%A).
 Print Assumptions tridiag_scalar_assign.
+Example tridiag_scalar_assign_nonvacuous : wfT ex3 /\ 1 < tn ex3 /\ 2 < tn ex3 /\ in_band 1 2.
+Proof. unfold wfT, in_band; cbn; repeat split; auto. Qed.
 
 (* ---- &T * &v = dense twin times v, for every n >= 1 (n = 1 needs the repair 1f8b278) ---- *)
 Theorem tridiag_mul_spec : forall (A : Arith), RingLaws A -> forall (t : tridiag A) (v : list A),
@@ -240,6 +242,9 @@ Check tridiag_det_is_continuant : forall (A : Arith) (t : tridiag A), wfT t -> 1
   forall k, continuant t (S (S k)) =
     (nth (S k) (tmain t) zero * continuant t (S k) - nth k (tsub t) zero * nth k (tsup t) zero * continuant t k)%A.
 Print Assumptions tridiag_det_is_continuant.
+Example tridiag_det_is_continuant_nonvacuous :      (* also at the float instance: no algebraic law is assumed *)
+  wfT ex3 /\ 1 <= tn ex3 /\ wfT (@mkT AF [1%float] [2%float; 3%float] [4%float] 2) /\ 1 <= 2.
+Proof. unfold wfT; cbn; repeat split; auto. Qed.
 
 (* over an exact field, det is the product of the Thomas pivots whenever elimination meets no zero pivot
    (so det and solve describe one and the same elimination) *)
@@ -263,7 +268,7 @@ Proof. unfold wfT; cbn [tn tmain tsub tsup ex3 length]. repeat split; auto. Qed.
    fieldType F (abs/ltb/leb are unused by det and arbitrary); [dense_mx t] is the n x n mathcomp matrix
    \matrix_(i, j) dense t i j.  Proof: tdet = continuant (above) and continuant = \det by Laplace expansion
    along the last row and then along the last column of the remaining minor (Proofs/TridiagBridge.v). *)
-From mathcomp Require ssreflect.ssrnat algebra.ssralg algebra.matrix.
+From mathcomp Require ssreflect.ssrnat algebra.ssralg algebra.matrix algebra.rat.
 From OV Require Import Proofs.TridiagBridge.
 Theorem tridiag_det_is_det : forall (F : ssralg.GRing.Field.type) (abs' : ssralg.GRing.Field.sort F -> ssralg.GRing.Field.sort F)
   (ltb' leb' : ssralg.GRing.Field.sort F -> ssralg.GRing.Field.sort F -> bool)
@@ -275,6 +280,14 @@ Check tridiag_det_is_det : forall (F : ssralg.GRing.Field.type) (abs' : ssralg.G
   (t : tridiag (ArithOfField abs' ltb' leb')), wfT t -> 1 <= tn t ->
   tdet t = Ok (@matrix.determinant (ssralg.GRing.Field.ringType F) (tn t) (dense_mx t)).
 Print Assumptions tridiag_det_is_det.
+(* an instance: mathcomp's rationals, the matrix [[2,1],[1,1]] *)
+Example tridiag_det_is_det_nonvacuous :
+  let F := rat.rat_fieldType in
+  let one' := @ssralg.GRing.one (ssralg.GRing.Field.ringType F) in
+  let A' := ArithOfField (F := F) (fun x => x) (fun _ _ => false) (fun _ _ => false) in
+  let t := @mkT A' [one'] [@ssralg.GRing.add (ssralg.GRing.Field.zmodType F) one' one'; one'] [one'] 2 in
+  wfT t /\ 1 <= tn t.
+Proof. cbv zeta. unfold wfT. cbn [tn tmain tsub tsup length]. repeat split; auto. Qed.
 
 (* ---- over the reals: a strictly (row) diagonally dominant system is never refused ----
    [AR] is the Arith of Coq's real numbers (division by 0 = Panic DivZero, == decided by Req_EM_T);
